@@ -47,6 +47,21 @@ CHECKS = {
  "C17": dict(level="exploration", engine="comp",
    text="Every library and operator reader is driven by a simulated upstream (scripted chunking incl. empty non-EOF reads and rows-with-EOF, injected read errors) and a simulated consumer (seeded destination sizes, poisoned destination frames taken as views at an offset); oracles: count bounds, nothing written outside the returned rows or the view, same row sequence for every chunking pair, earlier frames unchanged, sticky EOF, errors propagated; scanner arity/type rejection.",
    design="§6 C17", technique="deterministic simulation of upstream/consumer around each reader, seeded chunkings, poison-frame oracle", note=COMP),
+ "C09": dict(level="exploration", engine="comp",
+   text="The combining frame is fed EVERY key sequence up to a length bound over a 4-key alphabet into tables of initial size 1..8 (all probe sequences, resizes and compaction orders of a size-8 table) plus seeded streams; the spilling combiner is fed by 1-4 simulated producer tasks in a seeded interleaving with spill thresholds from 1 key upward and per-process vector sizes, read back through Reader or WriteTo+decoder or discarded; oracle: one row per key, ascending order, value == fold, no spill directory left. No fault dimension (the spiller has no seam); said so in DESIGN.",
+   design="§6 C09", technique="component simulation: seeded producer interleavings and size knobs, bounded-exhaustive key sequences, durable-state inspection", note=COMP),
+ "C14": dict(level="exploration", engine="comp",
+   text="Two layers. The real machineManager.Do runs over the simulated bigmachine system under a fake clock and is driven by seeded offer/cancel/done(ok|remote|transport)/kill/time-advance histories; capacity, probation, dead-machine, ordering (single-machine steps only), conservation and machine-count oracles use grants and returns only. In addition a whole-system monitor observes the driver's assignment intervals (offered/returned yield points) in simulated cluster runs with Procs/Exclusive pragmas, exclusive Funcs and faults on every step of a task run, and the local executor's concurrency inside user functions.",
+   design="§6 C14", technique="deterministic simulation of the live manager with fault injection (machine kills, transport errors, clock), invariant monitor on whole-system runs", note=COMP + "; " + WHOLE),
+ "C15": dict(level="fault_enumeration", engine="comp",
+   text="File and memory task stores over the simulated disk: sequential histories checked against a map model, each re-run with an error at EVERY file operation of its fault-free run and a short write at every write; concurrent clients stepped one file operation at a time by a seeded scheduler and checked with porcupine against a nondeterministic register model; the retrying remote reader over a scripted opener with a fake clock, exhaustive over failure positions for short streams with <= 3 failures.",
+   design="§6 C15", technique="disk fault enumeration on a simulated file system, cooperative scheduling + porcupine linearizability, exhaustive failure scripts for the retry reader", note=COMP),
+ "C16": dict(level="exploration", engine="world",
+   text="Funcs whose rows render their arguments as seen by the invoking process are run on the simulated cluster (and locally) with seeded argument lists over scalars, slices, maps, structs, pointers, interface parameters, nil values, Results and nested Results; rows must render the driver's arguments, worker graphs must equal the driver's; unencodable arguments must give an error with no repeated Worker.Run/Compile; registry skew is injected as a transport fault on the FuncLocations reply and must be refused iff the lists differ; the FuncLocationsDiff law is checked exhaustively for lists up to length 5 (pure side-oracle).",
+   design="§6 C16", technique="deterministic simulation: argument transport over the simulated network, registry skew as a transport fault, seam-log oracle for retries", note=WHOLE),
+ "C20": dict(level="exploration", engine="comp",
+   text="Scope operations (Incr/Value/Merge) from 2-4 logical threads are stepped one yield point at a time (before each load/CAS that creates scope storage or instances) by a seeded scheduler and checked with porcupine per (scope, counter); merge/reset/gob laws on seeded scopes; the end-to-end total is checked by a whole-system batch on both executors (counters of a Result, also over a reused Result, == the reference's per-row call counts).",
+   design="§6 C20", technique="cooperative scheduling at yield points + porcupine; whole-system reference-model oracle for totals", note=COMP + "; " + WHOLE),
 }
 
 NOT_APPLICABLE = {
